@@ -218,6 +218,11 @@ func c12Run(j vs.Job) *vs.JobResult {
 	ref.Probe = true
 	w0, res0 := runWorld(ref, vs.Config{}, nil, nil, nil)
 	if v := c01Oracle(w0, res0, true); v != "" {
+		if len(res0.Sched.Crash) > 0 {
+			// no substitution needed: the peer's well-formed messages alone crash the process
+			r.Violate("c12:reference-crash:"+firstWords(res0.Sched.CrashString(), 8), ref.String()+": the unmodified, well-formed transcript already crashes: "+v, ref)
+			return r
+		}
 		r.ToolErr = "the unmodified reference run is not clean: " + v
 		return r
 	}
@@ -314,6 +319,9 @@ func init() {
 				// (120 ms of latency per message, or the display's 200 ms redraw throttle hides every step but the first)
 				cfgs = append(cfgs, wParams{Dir: dir, Tree: "one:E:300", Overwrite: true, DstPre: "c08:shorter:100@-1", HashStep: 64, Timeout: 3, Columns: 80, LatencyMs: 120})
 				cfgs = append(cfgs, wParams{Dir: dir, Tree: "one:R:21000", Timeout: 3, Columns: 80, LatencyMs: 120})
+				// an empty first file, and one whose base64 form is exactly one 10240-character buffer: no tail chunk after the last full one
+				cfgs = append(cfgs, wParams{Dir: dir, Tree: "one:T:0", Timeout: 3, Columns: 80})
+				cfgs = append(cfgs, wParams{Dir: dir, Tree: "one:R:7680", Compress: 2, Timeout: 3, Quiet: true})
 				if tier == "thorough" {
 					cfgs = append(cfgs, wParams{Dir: dir, Tree: "small3", Protocol: 2, Timeout: 3, Columns: 80})
 					cfgs = append(cfgs, wParams{Dir: dir, Tree: "small3", Protocol: 1, Timeout: 3, Quiet: true})
